@@ -64,15 +64,19 @@ def check(pid, tier, args):
                 f.write(json.dumps(sc) + "\n")
     p = vlib.run([drive, "interleave", "-what", "icc", "-scheds", sp, "-out", out, "-seed", str(vlib.seed())], timeout=1800)
     st = json.loads(p.stdout.strip().splitlines()[-1])
-    if st["followed"] * 2 < st["schedules"]:
-        raise vlib.Infra("only %d of %d interleavings could be forced on the real reader" % (st["followed"], st["schedules"]))
+    # when the schedules cannot be forced (the reader refuses the harness's headers, say) the single-reader
+    # observations are judged first: only if THEY are all accepted is the failure to force machinery
+    forced_ok = st["followed"] * 2 >= st["schedules"]
     run.cov["forced_interleavings"] = st
-    with open(os.path.join(out, "c16.ndjson"), "a") as f:
-        f.write(open(os.path.join(out, "c16i.ndjson")).read())
+    if forced_ok:
+        with open(os.path.join(out, "c16.ndjson"), "a") as f:
+            f.write(open(os.path.join(out, "c16i.ndjson")).read())
     results, rejects, lines = vlib.validate_trace("TraceIccHeader", "TraceIccHeader.cfg",
                                                   os.path.join(out, "c16.ndjson"), shards=8, heap="3g")
     for res in results:
         run.add_tlc("TraceIccHeader", res)
+    if not forced_ok and not rejects:
+        raise vlib.Infra("only %d of %d interleavings could be forced on the real reader" % (st["followed"], st["schedules"]))
     run.cov["traces_validated_against_impl"] = len(lines)
     nh = sum(1 for l in lines if '"kind":"hdr"' in l)
     run.cov["header_events"] = nh
